@@ -6,6 +6,7 @@ package chainsim
 import (
 	"fmt"
 	"strings"
+	"time"
 
 	"github.com/pokt-network/pocket-core/codec"
 	sdk "github.com/pokt-network/pocket-core/types"
@@ -38,6 +39,7 @@ type txCtx struct {
 	diff    []Change
 	resub   bool
 	enc     string
+	blockTime time.Time
 }
 
 func (t *txCtx) delta(addr string) sdk.BigInt { return t.va.Balance(addr).Sub(t.vb.Balance(addr)) }
@@ -128,7 +130,7 @@ func (s *Sim) checkTx(b *blockObs, i int, tx []byte, r abci.ResponseDeliverTx, b
 		s.checkOwnTx(b, i, tx, r, before, after, diff)
 		return
 	}
-	t := &txCtx{h: b.spec.Height, rec: rec, res: r, before: before, after: after, diff: diff, resub: p.id < 0, enc: enc}
+	t := &txCtx{h: b.spec.Height, blockTime: b.spec.Time, rec: rec, res: r, before: before, after: after, diff: diff, resub: p.id < 0, enc: enc}
 	t.vb, t.va = before.View(), after.View()
 	changed := len(diff) > 0
 
@@ -146,6 +148,9 @@ func (s *Sim) checkTx(b *blockObs, i int, tx []byte, r abci.ResponseDeliverTx, b
 			s.violate("C16", "effective-twice", subject, fmt.Sprintf("height %d: tx id %d (%s) changed state for the %d. time; effective deliveries so far: %v (this one: code %d/%s): %s", t.h, rec.Step.ID, rec.Step.Kind, rec.Delivered, rec.Encs, r.Code, r.Codespace, diff[0]))
 		}
 		s.res.Case(fmt.Sprintf("delivered/%s/%s/code=%v", rec.Step.Kind, enc, r.Code == 0))
+	}
+	if changed {
+		s.checkStatusMoves(t)
 	}
 	if t.resub {
 		s.res.Probe("resubmission_delivered_" + enc)
@@ -440,4 +445,32 @@ func firstNonFee(t *txCtx, signer, feeAddr string) string {
 		}
 	}
 	return "signer delta " + t.delta(signer).String()
+}
+
+// checkStatusMoves (C24): within a transaction no node changes status (that happens in EndBlock at
+// a session boundary) and an application leaves the staked state only through its own request.
+func (s *Sim) checkStatusMoves(t *txCtx) {
+	rec := t.rec
+	for _, addr := range sortedAddrs(t.vb.Validators) {
+		pv := t.vb.Validators[addr]
+		nv, ok := t.va.Validators[addr]
+		if !ok {
+			s.violate("C24", "node-record-removed-by-tx", rec.Step.Kind, fmt.Sprintf("height %d: tx id %d (%s) removed node %s (status %d)", t.h, rec.Step.ID, rec.Step.Kind, addr, pv.Status))
+		} else if nv.Status != pv.Status {
+			s.violate("C24", "node-status-changed-by-tx", rec.Step.Kind, fmt.Sprintf("height %d: tx id %d (%s) changed node %s status %d -> %d", t.h, rec.Step.ID, rec.Step.Kind, addr, pv.Status, nv.Status))
+		}
+	}
+	for _, addr := range sortedAddrs(t.vb.Apps) {
+		pa := t.vb.Apps[addr]
+		na, ok := t.va.Apps[addr]
+		left := !ok || na.Status != pa.Status
+		if !left || pa.Status != sdk.Staked {
+			continue
+		}
+		own := rec.Step.Kind == "app_unstake" && s.key(rec.Step.From).String() == addr && rec.SignAddr == addr
+		transfer := rec.Step.Kind == "app_stake" && rec.Step.Amount == 0 && len(rec.Step.Chains) == 0 && rec.SignAddr == addr
+		if !own && !transfer {
+			s.violate("C24", "app-left-staked-state-without-own-request", rec.Step.Kind, fmt.Sprintf("height %d: tx id %d (%s, signed by %s) moved application %s out of the staked state", t.h, rec.Step.ID, rec.Step.Kind, rec.SignAddr, addr))
+		}
+	}
 }
